@@ -1,8 +1,14 @@
 (* Opt/Run.v — the model and the spec instantiated with the documented vocabulary (what gets extracted) *)
 From Coq Require Import List ZArith.
+From Nitro Require Fmt.FormatModel Fmt.FormatSpec.
 From Nitro Require Import Base.Bytes Base.Res Opt.Token Opt.Decl Opt.ParserModel Opt.ParserCore Opt.ParserSpec Opt.Vocab.
 Definition parse := parse_g truthy falsy.
 Definition history := run_history truthy falsy.
 Definition spec := spec_parse truthy falsy.
 Definition assign := assignment truthy falsy.
 Definition env_word := parse_env_word truthy falsy.
+
+(* typed access option::as<long>() on a value whose text is a plain decimal number: the number whose decimal text was given.
+   None = the text is not a plain decimal (what operator>> does then is outside the model; the driver exercises it) *)
+Definition as_long (v : str) : option Z := FormatSpec.read_dec v.
+Definition dec_text (z : Z) : str := FormatModel.print_dec z.
